@@ -487,7 +487,7 @@ pub fn run(seed: u64, cases: usize, out: &mut Sink) {
                             mutation = "wrong_root";
                         }
                         2 => {
-                            klen = if rng.chance(1, 2) { rng.below(sibs.len() + 2) } else { rng.below(257) };
+                            klen = if rng.chance(1, 2) { rng.below(sibs.len() + 2).min(256) } else { rng.below(257) };
                             mutation = "short_key";
                         }
                         _ => {
